@@ -528,16 +528,20 @@ Fixpoint remove1_pending (c : aclass) (a : uuid) (l : list (aclass * uuid * peer
   end.
 
 (* [last] = no other download of the id is under way when this one is applied (oracle): the request is
-   forgotten; otherwise one request of the id is *)
-Definition process_assets (pr : peer_state) (c : aclass) (done : list (aclass * uuid * N * bool)) : peer_state :=
+   forgotten; otherwise one request of the id is. Content [None]: the thread of a download
+   that arrived after a download of a LATER request of the same id (requests are numbered, repair of
+   defect S31) and was dropped is over: nothing is applied, only the registry follows (which arrival
+   is outdated is decided by the numbering discipline modelled and proved in Abs/Downloads.v; here it
+   is an oracle event) *)
+Definition process_assets (pr : peer_state) (c : aclass) (done : list (aclass * uuid * option N * bool)) : peer_state :=
   foldl (fun pr '(c', a, v, last) =>
            if kind_num (KClass c') =? kind_num (KClass c) then
-             let pr := pr <| t_htok := a :: t_htok pr |> in
+             let pr := match v with Some _ => pr <| t_htok := a :: t_htok pr |> | None => pr end in
              let pr := pr <| d_pending :=
                           if (last : bool)
                           then filter (fun x : aclass * uuid * peer => negb ((kind_num (KClass x.1.1) =? kind_num (KClass c)) && (x.1.2 =? a))) (d_pending pr)
                           else remove1_pending c a (d_pending pr) |> in
-             insert_asset pr (KClass c) a v
+             match v with Some v => insert_asset pr (KClass c) a v | None => pr end
            else pr) pr done.
 
 (* promote_to_host_event_reader *)
@@ -713,7 +717,7 @@ Record frame_oracle := {
   fo_status : option renet_status;       (* client: RenetClient status after this frame's renet update *)
   fo_srv_poll : list peer;               (* host poll: sender of each message received, in order *)
   fo_cli_poll : nat;                     (* client poll: number of messages received *)
-  fo_downloads : list (aclass * uuid * N * bool);   (* downloads whose payload the process_* systems apply in this frame; the flag: no other download of the id is under way *)
+  fo_downloads : list (aclass * uuid * option N * bool);   (* downloads whose payload the process_* systems apply in this frame (None: dropped on arrival as outdated); the flag: no other download of the id is under way *)
 }.
 
 Definition run_body (pr : peer_state) (s : sysid) (o : frame_oracle) : peer_state :=
